@@ -1317,4 +1317,104 @@ theorem runForm_fuel_mono (env : Env) : ∀ fuel : Nat, RfLe (TextModel.runForm 
         exact h
     · simp at h
 
+/-! ### a stated budget suffices -/
+
+theorem doShow_inv (env : Env) (st : MState) (seq : List Elem) :
+    (doShow env st seq).1.res = st.res ∧ (doShow env st seq).1.fuelOk = st.fuelOk := by
+  unfold doShow
+  split <;> simp
+
+theorem doTstar_inv (st : MState) : (doTstar st).res = st.res ∧ (doTstar st).fuelOk = st.fuelOk := by
+  unfold doTstar; simp
+
+theorem doSetColor_inv (st : MState) (b : Bool) :
+    (doSetColor st b).res = st.res ∧ (doSetColor st b).fuelOk = st.fuelOk := by
+  unfold doSetColor
+  cases b <;> simp only [Bool.false_eq_true, if_false, if_true] <;> repeat' split
+  all_goals exact ⟨rfl, rfl⟩
+
+/-- No `do_*` method changes the resources; only `Do` can clear the budget flag, and only when
+the form it runs does. -/
+theorem call_inv (env : Env) (rf : Form → MState → List Glyph × Bool) (st : MState) (op : Op) (args : List Obj)
+    (hrf : ∀ n j fm, lookup n st.res.xobjs = some j → env.forms[j]? = some fm →
+      ∀ st0 : MState, st0.fuelOk = true → st0.res = fm.res.getD st.res → (rf fm st0).2 = true)
+    (hf : st.fuelOk = true) :
+    (call env rf st op args).1.res = st.res ∧ (call env rf st op args).1.fuelOk = true := by
+  unfold call
+  split
+  all_goals try (simp [hf]; done)
+  all_goals try ((repeat' split) <;>
+    simp [hf, (doShow_inv env _ _).1, (doShow_inv env _ _).2, (doTstar_inv _).1, (doTstar_inv _).2,
+      (doSetColor_inv _ _).1, (doSetColor_inv _ _).2] <;> done)
+  -- `Do`
+  rename_i n
+  split
+  · rename_i nm
+    split
+    · simp [hf]
+    · rename_i j hj
+      split
+      · simp [hf]
+      · rename_i fm hfm
+        have := hrf nm j fm hj hfm
+          { MState.init (mult_matrix (fm.matrix.getD MATRIX_IDENTITY) st.ctm) (fm.res.getD st.res) with
+            ts := st.ts, scolor := st.scolor, ncolor := st.ncolor, scs := st.scs, ncs := st.ncs } rfl rfl
+        simp [hf, this]
+  · simp [hf]
+
+theorem execTok_inv (env : Env) (rf : Form → MState → List Glyph × Bool) (st : MState) (t : Tok)
+    (hrf : ∀ n j fm, lookup n st.res.xobjs = some j → env.forms[j]? = some fm →
+      ∀ st0 : MState, st0.fuelOk = true → st0.res = fm.res.getD st.res → (rf fm st0).2 = true)
+    (hf : st.fuelOk = true) :
+    (execTok env rf st t).1.res = st.res ∧ (execTok env rf st t).1.fuelOk = true := by
+  cases t with
+  | opnd o => cases o <;> simp [execTok, hf]
+  | op o =>
+    simp only [execTok]
+    split
+    · simp [hf]
+    · exact call_inv env rf st o [] hrf hf
+    · split
+      · exact call_inv env rf { st with argstack := _ } o _ hrf hf
+      · simp [hf]
+
+theorem execToks_inv (env : Env) (rf : Form → MState → List Glyph × Bool) (res : Res)
+    (hrf : ∀ n j fm, lookup n res.xobjs = some j → env.forms[j]? = some fm →
+      ∀ st0 : MState, st0.fuelOk = true → st0.res = fm.res.getD res → (rf fm st0).2 = true)
+    (toks : List Tok) : ∀ st : MState, st.res = res → st.fuelOk = true →
+      (execToks env rf st toks).1.res = res ∧ (execToks env rf st toks).1.fuelOk = true := by
+  induction toks with
+  | nil => intro st h1 h2; simp [execToks, h1, h2]
+  | cons t rest ih =>
+    intro st h1 h2
+    simp only [execToks]
+    obtain ⟨h3, h4⟩ := execTok_inv env rf st t (by rw [h1]; exact hrf) h2
+    exact ih _ (by rw [h3, h1]) h4
+
+/-- Every form carries its own resource dictionary, and it names only forms earlier in the table:
+the call graph of `Do` is acyclic and form `i` nests at most `i` levels deep. -/
+def Ranked (env : Env) : Prop :=
+  ∀ i fm, env.forms[i]? = some fm → ∃ r, fm.res = some r ∧ ∀ n j, lookup n r.xobjs = some j → j < i
+
+/-- With a ranked form table, form `i` never exhausts a budget larger than `i`. -/
+theorem runForm_budget (env : Env) (hr : Ranked env) : ∀ (i : Nat) (fm : Form) (m0 : MState) (fuel : Nat),
+    env.forms[i]? = some fm → m0.res = fm.res.getD m0.res → m0.fuelOk = true → i < fuel →
+    (Interp.runForm env fuel fm m0).2 = true := by
+  intro i
+  induction i using Nat.strongRecOn with
+  | _ i ih =>
+    intro fm m0 fuel hfm hres hf hlt
+    obtain ⟨r, hr1, hr2⟩ := hr i fm hfm
+    cases fuel with
+    | zero => omega
+    | succ k =>
+      simp only [Interp.runForm]
+      have hm0 : m0.res = r := by rw [hres, hr1]; rfl
+      refine (execToks_inv env (Interp.runForm env k) r ?_ fm.body m0 hm0 hf).2
+      intro n j fm' hj hfm' st0 hst0 hres0
+      have hji := hr2 n j hj
+      refine ih j hji fm' st0 k hfm' ?_ hst0 (by omega)
+      obtain ⟨r', hr1', _⟩ := hr j fm' hfm'
+      rw [hres0, hr1']; rfl
+
 end PdfVerif.Interp
